@@ -4,7 +4,7 @@
 # demonstration fails with it and passes without it; on success stores it as /verif/seeded/<id>/.
 set -u
 SRC="$1"; ID="$2"
-WT=/tmp/mutverify
+WT=${WT:-/tmp/mutverify}
 export CARGO_TARGET_DIR=$WT/target CARGO_NET_OFFLINE=true
 LOG=/verif/out/seeded_verify_$ID.log
 mkdir -p /verif/out
